@@ -45,13 +45,19 @@ fn small_leaf() -> impl Strategy<Value = Small> {
     // lattice value, or (1 in 12) a non-finite one
     let v = || prop_oneof![11 => (-3i64..4).prop_map(|x| x as f64), 1 => prop_oneof![Just(f64::NAN), Just(f64::INFINITY), Just(f64::NEG_INFINITY)]];
     let p = move || (v(), v());
+    // for the types whose validity depends on finiteness and distinctness only: also huge FINITE ordinates (their sum is not
+    // finite, each of them is)
+    let vh = || prop_oneof![10 => (-3i64..4).prop_map(|x| x as f64), 1 => prop_oneof![Just(f64::NAN), Just(f64::INFINITY), Just(f64::NEG_INFINITY)], 1 => prop_oneof![Just(f64::MAX), Just(-f64::MAX), Just(1.0e308), Just(-9.0e307)]];
+    let ph = move || (vh(), vh());
+    let p_ = p;
+    let p = ph;
     prop_oneof![
         1 => p().prop_map(Small::Pt),
         2 => (p(), p()).prop_map(|(a, b)| Small::Ln(a, b)),
-        2 => (p(), p(), p()).prop_map(|(a, b, c)| Small::Tri(a, b, c)),
+        2 => (p_(), p_(), p_()).prop_map(|(a, b, c)| Small::Tri(a, b, c)),
         // ill-conditioned triangles: exactly collinear / off by an ulp / thin (shared with C03)
         4 => crate::props::c03::triple_strategy().prop_map(|t| Small::Tri(t[0], t[1], t[2])),
-        1 => (p(), p()).prop_map(|(a, b)| Small::Rc(a, b)),
+        1 => (p_(), p_()).prop_map(|(a, b)| Small::Rc(a, b)),
         3 => proptest::collection::vec(p(), 0..6).prop_map(Small::Ls),
         1 => proptest::collection::vec(p(), 0..5).prop_map(Small::Mpt),
         2 => proptest::collection::vec(proptest::collection::vec(p(), 0..5), 0..4).prop_map(Small::Mls),
@@ -413,6 +419,13 @@ fn mutate(g: &G, op: u8, s: u64) -> G {
                 polys.push(Poly::new(vec![v, (v.0 + d.0 * 2, v.1 + d.1 * 2), (v.0 + d.0 * 2 - d.1, v.1 + d.1 * 2 + d.0), v], vec![]));
             }
             _ => {}
+        }
+        // (a third of the time one of the members also carries an EMPTY hole ring: it has no coordinates and changes nothing)
+        if (12..=17).contains(&op) && pick(3, 7) == 0 {
+            let k = pick(polys.len(), 5);
+            if !polys[k].ext.is_empty() {
+                polys[k].holes.push(vec![]);
+            }
         }
         // (the added member comes last; half of the time it is moved to the front: the defects are symmetric, the order in
         // which members are related is not)
